@@ -7,7 +7,7 @@ exec 9>/verif/.cache/seed.lock; flock 9     # PynGen tables and the lake build a
 WT=/tmp/seedtrial_$$
 git -C /repo worktree add -q --detach $WT HEAD || exit 3
 trap 'git -C /repo worktree remove --force '$WT' 2>/dev/null; rm -rf '$WT'; unset PYNAPPLE_REPO; python3 /verif/tools/extract_npz_keys.py >/dev/null; python3 /verif/tools/extract_unit_sites.py >/dev/null; python3 /verif/tools/extract_inplace_sites.py >/dev/null' EXIT
-git -C $WT apply /verif/seeded/$name/patch.diff || { echo "$name DOES-NOT-APPLY"; exit 3; }
+git -C $WT apply /verif/seeded/$name/patch.diff 2>/dev/null || git -C $WT apply -3 /verif/seeded/$name/patch.diff || { echo "$name DOES-NOT-APPLY"; exit 3; }
 export PYNAPPLE_REPO=$WT VERIF_EVIDENCE_DIR=/verif/.work/seed_evidence
 for id in "$@"; do
   ./check $id quick 2>&1 | tail -3
